@@ -532,7 +532,11 @@ fn compile_collateral(tx: &tir::Tx) -> Result<Vec<TransactionInput>, Error> {
         .map(|x| coercion::utxo_ref_into_input(&x))
         .collect::<Result<Vec<_>, _>>()?;
 
-    Ok(without_duplicates(refs))
+    // like the inputs, collateral UTxOs come out of a hash set: emit them in canonical order
+    let mut refs = without_duplicates(refs);
+    refs.sort_by_key(|x| (x.transaction_id, x.index));
+
+    Ok(refs)
 }
 
 fn compile_required_signers(tx: &tir::Tx) -> Result<Option<primitives::RequiredSigners>, Error> {
